@@ -557,6 +557,8 @@ def run(ctx, chk):
     r3(ctx, chk)
     aware_value_untouched_rule(ctx, chk, "C12.R6")
     conversion_must_happen_rule(ctx, chk, "C12.R7")
+    from .c11 import dropped_words_rule
+    dropped_words_rule(ctx, chk, "C12.R8")          # a zone that translation deletes cannot be converted from
 
 
 
